@@ -238,6 +238,20 @@ Theorem C17_dy_value_between : forall fuel a b m, q_wf a -> q_wf b -> (QofR a < 
 Proof. exact dy_get_value_between_sound. Qed.
 Print Assumptions C17_dy_value_between.
 
+(* 5. integer n-th root and the (repaired) dyadic root approximation used for lower/upper bounds of positive
+      n-th roots (C07): floor results are below the root, ceiling results above, `exact` means exact *)
+Theorem C17_iroot : forall n a, 0 < a -> (0 < n)%N ->
+  iroot n a ^ Z.of_N n <= a < (iroot n a + 1) ^ Z.of_N n /\ 0 <= iroot n a.
+Proof. exact iroot_spec. Qed.
+Print Assumptions C17_iroot.
+Theorem C17_dy_root_approx : forall a n prec ceil r ex, 0 < da a -> (0 < n)%N ->
+  dy_root_approx a n prec ceil = (r, ex) ->
+  dy_wf r /\
+  (if ceil then (QofD a <= QofD r ^ Z.of_N n)%Q else (QofD r ^ Z.of_N n <= QofD a)%Q) /\
+  (ex = true -> (QofD r ^ Z.of_N n == QofD a)%Q).
+Proof. exact dy_root_approx_spec. Qed.
+Print Assumptions C17_dy_root_approx.
+
 (* non-vacuity: concrete non-trivial instances of the hypotheses *)
 Example C17_nonvacuous_ring : 0 < 12 /\ ring_norm (Some 12) 6 = 6 /\ ring_norm (Some 12) 7 = -5 /\ ring_norm (Some 12) (-6) = 6.
 Proof. vm_compute. repeat split; try reflexivity. Qed.
